@@ -53,6 +53,8 @@ type c13Node struct {
 	dkgc     pdkg.DKGControlClient
 	ctrl     *net.ControlClient
 	stopped  atomic.Bool
+	// highest round for which a Put on this node's base store has STARTED (set before delegating), +1
+	putStarted atomic.Uint64
 }
 
 type c13Net struct {
@@ -111,6 +113,14 @@ func (s *c13StoreTap) node() *c13Node {
 
 func (s *c13StoreTap) Put(ctx context.Context, b *common.Beacon) error {
 	n := s.node()
+	if n != nil {
+		for {
+			cur := n.putStarted.Load()
+			if b.Round+1 <= cur || n.putStarted.CompareAndSwap(cur, b.Round+1) {
+				break
+			}
+		}
+	}
 	f := s.nt.onPut
 	if f != nil {
 		f(n, false, b, nil)
